@@ -1,8 +1,8 @@
 package harness
 
 import (
-	"strings"
 	"fmt"
+	"strings"
 	"testing"
 	"time"
 
@@ -49,13 +49,13 @@ type c16Scenario struct {
 	// RegisteredFalse: registration found two Nodes with the NodeClaim's provider id (Registered=False, MultipleNodesFound)
 	RegisteredFalse bool `json:"registeredFalse,omitempty"`
 	// health
-	PoolNodes  int    `json:"poolNodes,omitempty"`
-	Unhealthy  int    `json:"unhealthy,omitempty"` // other unhealthy nodes in the pool
+	PoolNodes int `json:"poolNodes,omitempty"`
+	Unhealthy int `json:"unhealthy,omitempty"` // other unhealthy nodes in the pool
 	// UnhealthyTerminating: how many of those other unhealthy nodes are already being deleted (still in the pool, still unhealthy)
-	UnhealthyTerminating int `json:"unhealthyTerminating,omitempty"`
-	Condition  string `json:"condition,omitempty"` // which policy condition the target node shows: ready-false | badnode-true | both | none
-	Standalone bool   `json:"standalone,omitempty"`
-	SecondOff  int    `json:"secondOffsetSec,omitempty"`
+	UnhealthyTerminating int    `json:"unhealthyTerminating,omitempty"`
+	Condition            string `json:"condition,omitempty"` // which policy condition the target node shows: ready-false | badnode-true | both | none
+	Standalone           bool   `json:"standalone,omitempty"`
+	SecondOff            int    `json:"secondOffsetSec,omitempty"`
 	// Policies: order and tolerations of the provider's repair policies: "ready10,bad30" | "bad30,ready10" | "ready30,bad10" | "bad10,ready30"
 	Policies string `json:"policies,omitempty"`
 }
